@@ -34,6 +34,19 @@ def make_thread(c, name, op, slot):
         q = inp.qty('nq%s' % name)
         c.supplied.append(q)
         return Thread(name, op, {'id': target_id(inp, 'tgt%s' % name, n), 'qty': q})
+    if op == 'u':
+        o = sym_order(L, inp, 'new%s' % name, oid=const_order_id(n + 1 + slot), price=h.P, variants=[0, 1, 6])
+        return Thread(name, op, {'order': o})
+    if op == 'o':
+        return Thread(name, op, {})
+    if op in 'rf':
+        return Thread(name, op, {'id': target_id(inp, 'tgt%s' % name, n)})
+    if op in 'PBX':
+        d = {'id': target_id(inp, 'tgt%s' % name, n), 'price': inp.var('np%s' % name, 64)}
+        if op in 'BX':
+            d['qty'] = inp.qty('nq%s' % name)
+            c.supplied.append(d['qty'])
+        return Thread(name, op, d)
     if op == 'N':
         return Thread(name, op, {'n': c.cube.get('calls', 2)})
     raise Unsupported(op)
@@ -102,6 +115,23 @@ def upd_result(t):
     return S.And(ok, S.Eq(opt.tag, S.bv(1, 64))), S.And(ok, S.Eq(opt.tag, S.bv(0, 64))), (got[0] if got is not UNDEF else UNDEF)
 
 
+def is_removal(P, t):
+    """the thread's update takes the order out of the level (cancel, or a move to a different price)"""
+    if t.op == 'C':
+        return S.TRUE
+    if t.op in 'PBX':
+        return S.Not(S.Eq(t.params['price'], P.c.h.P))
+    return S.FALSE
+
+
+def is_amend(P, t):
+    if t.op == 'Q':
+        return S.TRUE
+    if t.op in 'BX':
+        return S.Eq(t.params['price'], P.c.h.P)
+    return S.FALSE
+
+
 def match_txs(L, t):
     mr = dict(zip(L.structs['MatchResult'], t.ret))
     txs = mr['transactions'][0]
@@ -153,13 +183,11 @@ def ob_conservation(P):
             elif t.op == 'M':
                 for v, tx in match_txs(L, t)[0]:
                     executed = S.Add(executed, S.Ite(S.And(v, veq(tx['maker_order_id'], idv)), S.ZExt(tx['quantity'], W), S.bv(0, W)))
-            elif t.op == 'C':
+            elif t.op in 'CQPBX':
                 some, none_, got = upd_result(t)
                 if got is not UNDEF:
-                    returned = S.Add(returned, S.Ite(S.And(some, veq(t.params['id'], idv)), total70(L, got), S.bv(0, W)))
-            elif t.op == 'Q':
-                some, none_, got = upd_result(t)
-                amended = S.Or(amended, S.And(some, veq(t.params['id'], idv)))
+                    returned = S.Add(returned, S.Ite(S.And(some, is_removal(P, t), veq(t.params['id'], idv)), total70(L, got), S.bv(0, W)))
+                amended = S.Or(amended, S.And(some, is_amend(P, t), veq(t.params['id'], idv)))
         resting = S.bv(0, W)
         for occ, key, o in fin:
             if veq(key, idv) is S.TRUE:
@@ -180,6 +208,40 @@ def ob_reachable(P):
             'goal': S.And(P.live, S.Not(h.rep_invariant(P.final_level)))}
 
 
+def ob_queue(P):
+    """bare OrderQueue programs: every order handed to the queue is handed out exactly once (one pop or one remove)
+    or still rests; every resting entry is covered by an available ticket"""
+    c, h, L = P.c, P.c.h, P.c.L
+    pre = h.level_parts(P.pre_level)['resting']
+    fin = h.level_parts(P.final_level)['resting']
+    ids = [const_order_id(i + 1) for i in range(c.pre['N'])] + \
+          [const_order_id(c.pre['N'] + 1 + i) for i, t in enumerate(P.threads) if t.op == 'u']
+    conj = []
+    for idv in ids:
+        put = S.bv(0, 8)
+        for occ, key, o in pre:
+            if veq(key, idv) is S.TRUE:
+                put = S.Add(put, S.B2BV(occ, 8))
+        out = S.bv(0, 8)
+        for t in P.threads:
+            if t.op == 'u' and veq(OrderView(L, t.params['order']).id, idv) is S.TRUE:
+                put = S.Add(put, S.bv(1, 8))
+            elif t.op in 'or':
+                r = t.ret
+                got = r.payloads.get(1, UNDEF)
+                if got is not UNDEF:
+                    out = S.Add(out, S.B2BV(S.And(S.Eq(r.tag, S.bv(1, 64)), veq(OrderView(L, got[0]).id, idv)), 8))
+        rest = S.bv(0, 8)
+        for occ, key, o in fin:
+            if veq(key, idv) is S.TRUE:
+                rest = S.Add(rest, S.B2BV(occ, 8))
+        conj.append(S.Eq(S.Add(out, rest), put))
+    return [{'name': 'queue: every order is handed out exactly once (one pop or one remove) or still rests',
+             'goal': S.And(P.live, S.Not(S.And(conj)))},
+            {'name': 'queue: every resting entry is covered by an available ticket',
+             'goal': S.And(P.live, S.Not(h.rep_invariant(P.final_level)))}]
+
+
 def ob_ack(P):
     """C13: not-found only if the order is not in the book; success means taken out"""
     c, h, L = P.c, P.c.h, P.c.L
@@ -187,9 +249,12 @@ def ob_ack(P):
     fin = h.level_parts(P.final_level)['resting']
     out = []
     for t in P.threads:
-        if t.op not in 'CQ':
+        if t.op not in 'CQPBX':
             continue
         some, none_, got = upd_result(t)
+        if t.op == 'P':
+            # a price update to the level's own price is rejected: not an acknowledgement about the order
+            none_ = S.And(none_, S.Not(S.Eq(t.params['price'], P.c.h.P)))
         tid = t.params['id']
         was = S.Or([S.And(occ, veq(key, tid)) for occ, key, o in pre])
         still = S.Or([S.And(occ, veq(key, tid)) for occ, key, o in fin])
@@ -197,9 +262,9 @@ def ob_ack(P):
         # complete fill would have removed it)
         out.append({'name': 'thread %s (%s): not-found although the order rested before the call and still rests afterwards' % (t.name, t.op),
                     'goal': S.And(P.live, none_, was, still), 'known': 'C13/not-found-while-held'})
-        if t.op == 'C':
-            out.append({'name': 'thread %s (C): success means the order is out of the book' % t.name,
-                        'goal': S.And(P.live, some, still)})
+        if t.op in 'CPBX':
+            out.append({'name': 'thread %s (%s): a successful removal means the order is out of the book' % (t.name, t.op),
+                        'goal': S.And(P.live, some, is_removal(P, t), still)})
     return out
 
 
@@ -267,6 +332,17 @@ def describe_model(P, model):
             s += ' | %s: match %d' % (t.name, conc(t.params['q'], model))
         elif t.op == 'N':
             s += ' | %s: %d x next()' % (t.name, t.params['n'])
+        elif t.op in 'uorf':
+            what = {'u': 'queue.push', 'o': 'queue.pop', 'r': 'queue.remove', 'f': 'queue.find'}[t.op]
+            if t.op == 'u':
+                what += ' #%s' % order_id_str(conc(OrderView(L, t.params['order']).id, model))[-2:]
+            elif t.op in 'rf':
+                what += ' #%s' % order_id_str(conc(t.params['id'], model))[-2:]
+            s += ' | %s: %s' % (t.name, what)
+        elif t.op in 'PBX':
+            s += ' | %s: %s #%s p=%d%s' % (t.name, {'P': 'UpdatePrice', 'B': 'UpdatePriceAndQuantity', 'X': 'Replace'}[t.op],
+                                         order_id_str(conc(t.params['id'], model))[-2:], conc(t.params['price'], model),
+                                         (' q=%d' % conc(t.params['qty'], model)) if 'qty' in t.params else '')
         elif t.op == 'C':
             s += ' | %s: cancel #%s' % (t.name, order_id_str(conc(t.params['id'], model))[-2:])
         else:
@@ -309,6 +385,20 @@ def thread_script(P, model):
                         'taker': order_id_str(conc(t.params['taker'], model))})
         elif t.op == 'N':
             ops.append({'thread': t.name, 'op': 'next', 'n': t.params['n']})
+        elif t.op == 'u':
+            ops.append({'thread': t.name, 'op': 'qpush', 'order': order_json(L, conc(t.params['order'], model))})
+        elif t.op == 'o':
+            ops.append({'thread': t.name, 'op': 'qpop'})
+        elif t.op in 'rf':
+            ops.append({'thread': t.name, 'op': 'qremove' if t.op == 'r' else 'qfind', 'id': order_id_str(conc(t.params['id'], model))})
+        elif t.op in 'PBX':
+            d = {'thread': t.name, 'op': 'update', 'kind': {'P': 'UpdatePrice', 'B': 'UpdatePriceAndQuantity', 'X': 'Replace'}[t.op],
+                 'id': order_id_str(conc(t.params['id'], model)), 'price': conc(t.params['price'], model)}
+            if 'qty' in t.params:
+                d['quantity'] = conc(t.params['qty'], model)
+            if t.op == 'X':
+                d['side'] = 'BUY'
+            ops.append(d)
         elif t.op == 'C':
             ops.append({'thread': t.name, 'op': 'update', 'kind': 'Cancel', 'id': order_id_str(conc(t.params['id'], model))})
         else:
@@ -318,6 +408,8 @@ def thread_script(P, model):
          'setup': state_recipe(c, model), 'threads': ops, 'schedule': schedule_of(P, model)}
     if getattr(P, 'gen_counter0', None) is not None:
         d['generator_counter'] = conc(P.gen_counter0, model)
+    if c.cube.get('queue_only'):
+        d['queue_only'] = True
     return d
 
 
@@ -333,7 +425,12 @@ def predicted(P, model):
                                                        for v, tx in txs if conc(v, model)]}
         elif t.op == 'N':
             out['threads'][t.name] = {'ids': [uuid_str(conc(x, model)) for x in t.ret]}
-        elif t.op in 'CQ':
+        elif t.op == 'u':
+            out['threads'][t.name] = {'pushed': True}
+        elif t.op in 'orf':
+            v = conc(t.ret, model)
+            out['threads'][t.name] = {'q': 'some', 'order': order_json(L, v[2][0])} if v[1] == 1 else {'q': 'none'}
+        elif t.op in 'CQPBX':
             some, none_, got = upd_result(t)
             if conc(some, model):
                 out['threads'][t.name] = {'update': 'some', 'order': order_json(L, conc(got, model))}
@@ -420,7 +517,12 @@ def compare_conc(script, pred, nat):
         if 'panic' in r:
             diffs.append('thread %s panicked natively' % name)
             continue
-        if 'ids' in e:
+        if 'q' in e:
+            if r.get('q') != e['q'] or (e['q'] == 'some' and canon(r.get('order')) != canon(e['order'])):
+                diffs.append('thread %s queue result: predicted %s native %s' % (name, canon(e), canon(r)))
+        elif 'pushed' in e:
+            pass
+        elif 'ids' in e:
             if r.get('ids') != e['ids']:
                 diffs.append('thread %s ids: predicted %s native %s' % (name, e['ids'], r.get('ids')))
         elif 'transactions' in e:
@@ -435,6 +537,8 @@ def compare_conc(script, pred, nat):
                 diffs.append('thread %s returned order: predicted %s native %s' % (name, canon(e['order']), canon(r.get('order'))))
     s = nat['state']
     for k in ('visible', 'hidden', 'count'):
+        if script.get('queue_only'):
+            break
         if s[k] != pred[k]:
             diffs.append('%s: predicted %r native %r' % (k, pred[k], s[k]))
     no = sorted(canon(o) for o in s['orders'])
